@@ -135,7 +135,7 @@ def _symtable(t):
     return arrays.wrap(np.asarray(t)) if type(t) is np.ndarray else t
 
 
-def case_cutout(ctx, geom, ns, length, offset, nwf, add_nan):
+def case_cutout(ctx, geom, ns, length, offset, nwf, add_nan, int_traces=False):
     import ibldsp.waveform_extraction as we
     import ibldsp.utils as u
     xy, radius = GEOMS[geom]
@@ -160,10 +160,11 @@ def case_cutout(ctx, geom, ns, length, offset, nwf, add_nan):
         other = ctx.call("make_channel_index_" + np.dtype(dt).name, u.make_channel_index, full.astype(dt), radius=200.0)
         ctx.oblige("neighbour_table_does_not_depend_on_the_coordinate_dtype", np.shape(other) == np.shape(ref) and bool(np.array_equal(np.asarray(other), ref)),
                    detail={"dtype": np.dtype(dt).name, "shape": str(np.shape(other)), "expected_shape": str(np.shape(ref))})
-    vals = [[ctx.real(f"a{c}_{t}") for t in range(ns)] for c in range(nc)]
+    vals = [[ctx.real(f"a{c}_{t}") if not int_traces else ctx.int(f"a{c}_{t}", -32768, 32767) for t in range(ns)] for c in range(nc)]
     flat = [e for r in vals for e in r]
     if add_nan:
-        arr = arrays.mk(flat, shape=(nc, ns), tag=np.dtype(np.float32))
+        # raw int16 counts (int_traces) or calibrated float32 volts: the NaN row is added by the function either way
+        arr = arrays.mk(flat, shape=(nc, ns), tag=np.dtype(np.int16 if int_traces else np.float32))
     else:
         arr = arrays.mk(flat + [float("nan")] * ns, shape=(nc + 1, ns), tag=np.dtype(np.float32))
     samples = [ctx.int(f"s{i}", offset, ns) for i in range(nwf)]
@@ -475,6 +476,7 @@ def cases(tier):
     for g in GEOMS:
         cs.append(Case(f"cutout_{g}", "case_cutout", {"geom": g, "ns": 9, "length": 4, "offset": 1, "nwf": 2, "add_nan": True}, timeout_s=2400, max_paths=100000))
     cs.append(Case("cutout_np1_6_prepadded", "case_cutout", {"geom": "np1_6", "ns": 8, "length": 3, "offset": 2, "nwf": 1, "add_nan": False}, timeout_s=2400))
+    cs.append(Case("cutout_col_5_int16_traces", "case_cutout", {"geom": "col_5", "ns": 7, "length": 3, "offset": 1, "nwf": 1, "add_nan": True, "int_traces": True}, timeout_s=2400))
     for mw in b["max_wf"]:
         n = b["nspikes"] if mw < 3 else 4        # the number of random choices grows as n!/(n-m)!: keep the product bounded
         cs.append(Case(f"selection_n{n}_maxwf{mw}", "case_selection", {"n": n, "max_wf": mw, "offset": 3, "length": 8}, timeout_s=3400, max_paths=900000))
@@ -554,10 +556,14 @@ for c in range(nc):
     want = [j for j in range(nc) if np.hypot(*(xy[j] - xy[c])) <= radius]
     if list(nbr[c]) != want + [nc] * (nbr.shape[1] - len(want)): bad.append(('neighbours', c, list(nbr[c]), want))
 rs = np.random.default_rng(0); arr = rs.normal(size=(nc, ns)).astype(np.float32)
+if {bool(params.get('int_traces'))}: arr = rs.integers(-3000, 3000, size=(nc, ns)).astype(np.int16)       # raw counts
 samples = {[m.get(f's{i}', offset) for i in range(nwf)]}; peaks = {[m.get(f'p{i}', 0) for i in range(nwf)]}
 df = pd.DataFrame({{'sample': samples, 'peak_channel': peaks}})
 if {params['add_nan']}:
-    wfs, cind, _ = we.extract_wfs_array(arr, df, nbr, trough_offset=offset, spike_length_samples=length, add_nan_trace=True)
+    try:
+        wfs, cind, _ = we.extract_wfs_array(arr, df, nbr, trough_offset=offset, spike_length_samples=length, add_nan_trace=True)
+    except Exception as e:
+        reproduced(f'extract_wfs_array(add_nan_trace=True) on {{arr.dtype}} traces raised {{type(e).__name__}}: {{e}}')
 else:
     wfs, cind, _ = we.extract_wfs_array(np.vstack([arr, np.full((1, ns), np.nan, dtype=np.float32)]), df, nbr, trough_offset=offset, spike_length_samples=length)
 ext = np.vstack([arr, np.full((1, ns), np.nan)])
